@@ -68,7 +68,18 @@ def run_part(run, fails, stats):
             n_after = len((r.srv.dump() or {"user_entries": []})["user_entries"])
             if n_after != n_before:
                 fails.append(("plain-candidate-learned-a-word", {"kind": "plain-candidate-learned-a-word"}, {"input": "くるまで"}))
+            # texts that exist only if a learned compound is ONE word (a prefix does not follow a prefix, a suffix not a suffix)
+            only_one_word = ["しんおさけ", "しんおやま", "かこかてき", "やまかてき", "しんかこかてき"]
+            live2 = {p_: S.texts(r.conv("normal", p_)) or [] for p_ in only_one_word}
+            if inp == "おさけ" and not ("新御酒" in live2["しんおさけ"] and "新御鮭" in live2["しんおさけ"]):
+                fails.append(("compound-not-one-word", {"kind": "compound-not-convertible", "via": "leading-prefix"},
+                              dict(w, probe="しんおさけ", candidates=live2["しんおさけ"])))
             if r.restart():
+                after2 = {p_: S.texts(r.conv("normal", p_)) or [] for p_ in only_one_word}
+                if after2 != live2:
+                    k0 = [p_ for p_ in only_one_word if after2[p_] != live2[p_]][0]
+                    fails.append(("compound-lost-by-restart", {"kind": "compound-lost-by-restart", "via": "one-word-probe"},
+                                  dict(w, probe=k0, before_restart=live2[k0], after_restart=after2[k0])))
                 again = S.texts(r.conv("normal", rd)) or []
                 if comp not in again:
                     fails.append(("compound-lost-by-restart", {"kind": "compound-lost-by-restart"}, dict(w, after_restart=again)))
